@@ -254,6 +254,31 @@ example :
   · simp [PModel.text, PConstraint.text, PDomain.text, PVarType.text, CName.text, fmtExp, fmtIndexes, indexText, varText, needsEscape,
       forClause, Cmp.text, ObjKind.text, reindent, joinWith, binOpText, wrapOperand, printsParen, natDigits, digitChar] <;> decide
 
+/-! #### graph literals: `let G = Graph { A -> [B: 2, C], B -> [C: -1.5], C }`
+
+The parser model reads graph literals (`graphLeaf`), `graphText` is `Display for Graph`; a `where` constant of the
+printable fragment may be a graph literal (`coreGraphValue`): `simple_variable` names, no parallel edges, costs that are
+integer / decimal literals with an optional `-`, and a first node with an edge (see `GraphOK` for why). -/
+
+/-- **`parse (tokens of a graph literal) = that graph`**: the rendering of `Display for Graph` is read back — through
+the failing block-function reading that the PEG tries first — as the graph with the same nodes, edges and costs; a
+cost `0` stays `Some(0)`, a missing cost stays missing -/
+theorem parse_format_graph {ns : List GNode} (h : GraphOK ns) {rest : List Tok} (hc : Closed rest) :
+    expAt (graphToks ns ++ rest) = .ok (.prim (graphText ns), rest) :=
+  parseExp_graph h hc _ (by simp [parseFuel])
+
+set_option maxRecDepth 8000 in
+/-- the display of `Graph { A -> [B: 0, C: -2, D: 1.5, E], B -> [A], C }` and its tokens; the decidable fragment accepts
+it (its text is lexed by the kernel-computed lexer model into `graphToks`), a graph of isolated nodes is outside -/
+theorem graph_sample :
+    let g : List GNode := [⟨"A", [⟨"B", some (false, "0")⟩, ⟨"C", some (true, "2")⟩, ⟨"D", some (false, "1.5")⟩, ⟨"E", none⟩]⟩,
+      ⟨"B", [⟨"A", none⟩]⟩, ⟨"C", []⟩]
+    graphText g = "Graph {\n    A -> [ B:0, C:-2, D:1.5, E ],\n    B -> [ A ],\n    C\n}"
+      ∧ graphOf (graphText g) = some g
+      ∧ coreGraphValue (.prim (graphText g)) = true
+      ∧ coreGraphValue (.prim (graphText [⟨"A", []⟩, ⟨"B", []⟩])) = false := by
+  refine ⟨by decide, by decide, by decide, by decide⟩
+
 /-- the same for the fragment without the lexical conditions on names (`WFpx`) -/
 theorem parse_format_program_wf (m : PModel) (h : WFpx m) : parseProgram (progToks m) = .ok m :=
   parseProgram_fmt m h
@@ -352,6 +377,21 @@ theorem text_range_sugar_only_in_iterators :
     ∧ fmtExp (.scoped "sum" [.single "i"] [.call "range" [.int 0, .var "n", .bool true]] (.var "i")) = "sum(i in 0..=n) { i }" := by
   simp [fmtExp, fmtList, fmtIters, fmtIter, iterText, callText, joinWith, wrapLeaf, PExp.isLeaf, IterVar.text, varText, needsEscape,
     natDigits, digitChar]
+
+/-- the sugar needs a LITERAL flag: a `range` call in iterator position whose inclusiveness is a constant or an expression
+(`closed`, `not open`) keeps the call form — written as `0..n` it would lose its last element whenever the flag is true —
+and such an iteration is in the printable fragment -/
+theorem text_range_flag_expression :
+    fmtExp (.scoped "sum" [.single "i"] [.call "range" [.int 0, .var "n", .var "closed"]] (.var "i")) = "sum(i in range(0, n, closed)) { i }"
+    ∧ fmtExp (.scoped "sum" [.single "i"] [.call "range" [.int 1, .var "n", .un .not (.var "open")]] (.var "i"))
+        = "sum(i in range(1, n, not open)) { i }"
+    ∧ coreExp (.scoped "sum" [.single "i"] [.call "range" [.int 0, .var "n", .var "closed"]] (.var "i")) = true := by
+  refine ⟨?_, ?_, ?_⟩
+  · simp [fmtExp, fmtList, fmtIters, fmtIter, iterText, callText, joinWith, IterVar.text, varText, needsEscape, natDigits, digitChar]
+  · simp [fmtExp, fmtList, fmtIters, fmtIter, iterText, callText, joinWith, IterVar.text, varText, needsEscape, natDigits, digitChar,
+      unOpText, wrapLeaf, PExp.isLeaf]
+  · simp [coreExp, coreList, coreIters, coreIter, printableIterVar, nameVar, plainVar, isPlainRun, isLetter, isDigit, extraLetters, isKeyword,
+      isFunctionName, i64Max, Gen.scopedKinds] <;> decide
 
 /-- an index of a compound variable that is no non-negative integer, integral decimal, name fragment or variable is
 written in braces: `x_{1.5}`, `x_{"a"}`; `x_{2}` and the name fragment `_2` stay bare (C11-float-index-printed-bare,
